@@ -195,7 +195,7 @@ def check(run: Run) -> None:
     check_patch_back(run, ctx, m, mod, "C07.R3")
 
     # ---------------- R4
-    pm = m.find_func("process_method_call", in_module=mod)
+    pm = _view(m, m.find_func("process_method_call", in_module=mod), keep=("_fill_in_default_arguments", "type_follow_in_callbacks", "process_method_callbacks", "get_method_and_class", "_find_keyword"))
     ctx_pm = TermCtx(m, max_depth=1, opaque={"as_literal", "_find_keyword", "resolve_type_vars", "get_type_hints", "_fill_in_default_arguments", "type_follow_in_callbacks", "process_method_callbacks", "get_method_and_class"})
     from ..lib import site_owner
 
@@ -290,7 +290,20 @@ def check(run: Run) -> None:
                 for h_, where in holders:
                     fh_ = ctx_u.analysis(h_)
                     res_lists = {x.func.value.id for x in calls_in(h_) if isinstance(x.func, ast.Attribute) and x.func.attr == "append" and isinstance(x.func.value, ast.Name) and any(y is where for a_ in x.args for y in ast.walk(a_))}
-                    if fh_.cfg.has_node(where) and any(known_empty(Facts(fh_, where).atoms, nm) is True for nm in res_lists):
+                    at_ = where
+                    st_w = stmt_of(where)
+                    if not res_lists and isinstance(st_w, ast.Assign) and st_w.value is where and len(st_w.targets) == 1 and isinstance(st_w.targets[0], ast.Name):
+                        # the record is named first and appended in a following statement of the same block
+                        tmp_ = st_w.targets[0].id
+                        from ..model import parent as _par2
+
+                        blk_ = next((getattr(_par2(st_w), f_) for f_ in ("body", "orelse", "finalbody") if isinstance(getattr(_par2(st_w), f_, None), list) and any(y is st_w for y in getattr(_par2(st_w), f_))), [])
+                        nxt_ = blk_[[i for i, y in enumerate(blk_) if y is st_w][0] + 1:][:1] if blk_ else []
+                        apps_ = [x.value for x in nxt_ if isinstance(x, ast.Expr) and isinstance(x.value, ast.Call) and isinstance(x.value.func, ast.Attribute) and x.value.func.attr == "append" and isinstance(x.value.func.value, ast.Name) and len(x.value.args) == 1 and isinstance(x.value.args[0], ast.Name) and x.value.args[0].id == tmp_]
+                        if len(apps_) == 1:
+                            res_lists = {apps_[0].func.value.id}
+                            at_ = apps_[0]
+                    if fh_.cfg.has_node(at_) and any(known_empty(Facts(fh_, at_).atoms, nm) is True for nm in res_lists):
                         raw_ok = True
             run.check(_is_filled(nt) or raw_ok, "C07.R2", g_, stmt_of(c), "candidate results carry the normalised call (the raw call only when no definition was found)", f"a candidate result carries {show(nt)[:60]} instead of the normalised call")
 
